@@ -8,6 +8,8 @@ import Operon.Model.Telomere
   use k                                                  select slot k (constructed now with the case's cfg if empty)
   tickd | tickk c | renewd | renewk n|none r | apor      other call forms (bare call = defaults read from the signatures)
   set thr n | set allow b | set life q|none | set idle q|none   public configuration attribute re-assigned
+  cb 0|1|2                                               callbacks of the current lifecycle: return / on_phase_change raises /
+                                                          on_senescence raises (a call ended by that exception prints ret `!`)
   start | tick c | err | hb | timeouts | renew n|none r | apo | term | rst | adv us     (`rst` = Telomere.reset(); a `reset` line separates cases)
 
   observation: ret phase length errors ops renewals reason age [events] lockTrace is_operational is_active time_remaining ops_remaining ## tag
@@ -22,6 +24,8 @@ structure DSt where
   cur : Nat := 0
   /-- slots whose lifecycle hung in a call: abandoned -/
   dead : List Nat := []
+  /-- slot → what its callbacks do (absent = they return) -/
+  cb : List (Nat × CbMode) := []
 
 def showPhase : Phase → String
   | .nascent => "N" | .active => "A" | .senescent => "S" | .apoptotic => "P" | .terminated => "T"
@@ -98,13 +102,13 @@ def step' (d : DSt) (toks : List String) : DSt × String :=
   | ["cfg", m, e, a, l, i] =>
     let cfg := parseCfg m e a l i
     let w := (stepW World.empty (.new 0 cfg)).1
-    ({ cfg := cfg, w := w, cur := 0, dead := [] }, showSlot w 0)
+    ({ cfg := cfg, w := w, cur := 0, dead := [], cb := [] }, showSlot w 0)
   | ["new", k, m, e, a, l, i] =>
     match k.toNat? with
     | none => (d, "bad-op")
     | some k =>
       let w := (stepW d.w (.new k (parseCfg m e a l i))).1
-      ({ d with w := w, cur := k, dead := d.dead.filter (· != k) }, showSlot w k ++ " ## new")
+      ({ d with w := w, cur := k, dead := d.dead.filter (· != k), cb := (k, .ok) :: d.cb }, showSlot w k ++ " ## new")
   | ["use", k] =>
     match k.toNat? with
     | none => (d, "bad-op")
@@ -115,6 +119,15 @@ def step' (d : DSt) (toks : List String) : DSt × String :=
       | none =>
         let w := (stepW d.w (.new k d.cfg)).1
         ({ d with w := w, cur := k }, showSlot w k ++ " ## use:fresh")
+  | ["cb", m] =>
+    -- the callbacks of the current lifecycle: 0 return, 1 on_phase_change raises, 2 on_senescence raises
+    match m.toNat? with
+    | some n =>
+      if n > 2 then (d, "bad-op") else
+      if d.dead.contains d.cur then (d, "dead") else
+      ({ d with cb := (d.cur, if n = 1 then .changeRaises else if n = 2 then .senescenceRaises else .ok) :: d.cb },
+        showSlot d.w d.cur ++ " ## cb")
+    | none => (d, "bad-op")
   | ["set", what, v] =>
     match parseSet what v with
     | none => (d, "bad-op")
@@ -132,12 +145,19 @@ def step' (d : DSt) (toks : List String) : DSt × String :=
         match op with
         | .adv _ => ({ d with w := w }, showSlot w d.cur ++ " ## adv")
         | _ => (d, "bad-op")
-      | (w, some o) =>
+      | (w, some o0) =>
+        -- the call under the callbacks installed on this lifecycle
+        let mode := (d.cb.lookup d.cur).getD .ok
+        let (o, raised, w) := match d.w.get d.cur with
+          | some i =>
+            let r := stepCb mode i.cfg i.st op
+            (r.1, r.2, if r.2 then (⟨w.now, (d.cur, ⟨i.cfg, r.1.st⟩) :: w.insts⟩ : World) else w)
+          | none => (o0, false, w)
         if lockRun genKind 0 o.lock then
           let cfg := match w.get d.cur with | some i => i.cfg | none => d.cfg
           ({ d with w := w },
-            joinSp [showRet o.ret, showState o.st, showList (o.evs.map showEv), showLock o.lock, showAcc cfg o.st]
-              ++ " ## " ++ o.tag)
+            joinSp [if raised then "!" else showRet o.ret, showState o.st, showList (o.evs.map showEv), showLock o.lock,
+              showAcc cfg o.st] ++ " ## " ++ o.tag ++ (if raised then " cb:raised" else ""))
         else ({ d with dead := d.cur :: d.dead }, "hang ## hang:" ++ o.tag)
 
 def main : IO Unit := runDriver ({} : DSt) step'
